@@ -2,7 +2,7 @@
 From Coq Require Import ZArith List Bool.
 From Darr Require Import Base ArrayModel RaggedModel Spec Crash Proofs.ArrayRefine Proofs.ArrayHist Proofs.CrashSafe
      Proofs.RaggedBase Proofs.RaggedRefine Proofs.RaggedProps Proofs.RCrashSafe
-     Skel Gen_effects EffectOrder Proofs.SkelProofs EffectOrderR Proofs.SkelRProofs Proofs.SkelTeeth.
+     Skel Gen_effects EffectOrder Proofs.SkelProofs EffectOrderR Proofs.SkelRProofs Proofs.SkelTeeth Proofs.SkelExact.
 Import ListNotations.
 Open Scope Z_scope.
 
@@ -136,6 +136,25 @@ Example C17_order_example :
   | (r, _, es) => r = Err AppendDataError /\ map kind_of es = [KAppend; KDescr; KReadme; KTrunc]
   end.
 Proof. cbn. split; reflexivity. Qed.
+
+(* The other direction, for the loop-free functions: EVERY run of the present source's
+   skeleton that completes (returns or falls off the end) performs exactly these effects
+   in exactly this order -- the data file is cut first, then the description, then the
+   README; for a ragged array indices/ first, then values/ (or nothing when only empty
+   subarrays go), then the top-level README and description.  With the theorems above:
+   the logs of the model are runs of the source, and the completed runs of the source
+   are the logs of the model. *)
+Theorem C17_truncate_exact_from_source : forall o ks,
+  aruns sk_truncate_array o ks -> o <> Raised -> ks = [KTrunc; KDescr; KReadme].
+Proof. exact truncate_array_exact. Qed.
+Print Assumptions C17_truncate_exact_from_source.
+
+Theorem C17_ragged_truncate_exact_from_source : forall o ks,
+  rruns sk_truncate_raggedarray o ks -> o <> Raised ->
+  ks = map KI [KTrunc; KDescr; KReadme] ++ map KV [KTrunc; KDescr; KReadme] ++ [KRReadme; KRDescr] \/
+  ks = map KI [KTrunc; KDescr; KReadme] ++ [KRReadme; KRDescr].
+Proof. exact truncate_raggedarray_exact. Qed.
+Print Assumptions C17_ragged_truncate_exact_from_source.
 
 (* the skeleton semantics discriminates: a truncate_array that rewrote the description
    before cutting the file, and a truncate_raggedarray that cut values/ before indices/
